@@ -255,6 +255,19 @@ func (r *RegistrationDB) findProducers(category string, key string, subkey strin
 	return retProducers
 }
 
+// tombstone the producers of a topic whose "broadcast_address:http_port" is node, in one
+// critical section: the marks are written under the lock the readers evaluate them under
+func (r *RegistrationDB) TombstoneProducers(topic string, node string) {
+	r.Lock()
+	defer r.Unlock()
+	for _, p := range r.findProducers("topic", topic, "") {
+		thisNode := fmt.Sprintf("%s:%d", p.peerInfo.BroadcastAddress, p.peerInfo.HTTPPort)
+		if thisNode == node {
+			p.Tombstone()
+		}
+	}
+}
+
 func (r *RegistrationDB) LookupRegistrations(id string) Registrations {
 	r.RLock()
 	defer r.RUnlock()
